@@ -191,6 +191,64 @@ def work(n):
 '''
 
 
+def registration_race_leg(c, wd, max_preemptions, max_runs):
+    """Only tracepoints registered in code (the service has sent nothing): one of them is unregistered by another thread
+    while an event that matches the OTHERS is being dispatched - they act on every hit of their lines all the same."""
+    import sys
+    from .. import rig as R
+    from .. import sched as S
+    mod, path, marks = R.write_host(wd, RACE_HOST)
+    base = path.rsplit('/', 1)[-1]
+    inf = {'fire_count': '-1', 'fire_period': '0', 'snapshot': 'no_collect'}
+
+    def make_run():
+        plugin = R.role_plugin('lg', {'log'})
+        rg = R.Rig(plugins=[plugin])
+        r0 = rg.register({'path': 'elsewhere.py', 'line': 5, 'args': dict(inf, log_msg='never')})
+        rg.register({'path': base, 'line': marks['stable'], 'args': dict(inf, log_msg='hit 1')})
+        rg.register({'path': base, 'line': marks['stable2'], 'args': dict(inf, log_msg='hit 2')})
+        mod.H = rg.handler
+        sch = S.Scheduler(line_files=('deep/processor/trigger_handler.py',))
+        results = {}
+
+        def host():
+            results['host'] = [mod.work(1), mod.work(2)]
+
+        def updater():
+            rg.tps.remove_custom(r0)
+        # (the host thread first: the default schedule runs it to the end, ONE forced switch lets the whole unregister
+        #  happen at any point of the dispatch - every such schedule is within reach of a small budget)
+        sch.spawn('H', host)
+        sch.spawn('U', updater)
+
+        def finish(sched, schedule):
+            logs = [c_[1] for c_ in plugin.calls if c_[0] == 'log']
+            problems = []
+            if results.get('host') != [2, 3]:
+                problems.append('host results %r' % (results.get('host'),))
+            for i in (1, 2):
+                n_ = sum(1 for m_ in logs if m_ == '[deep] hit %d' % i)
+                if n_ != 2:
+                    problems.append('registration %d (never unregistered) acted %d times on 2 hits of its line' % (i, n_))
+            if rg.escaped:
+                problems.append('handler raised %r' % (rg.escaped,))
+            rg.close()
+            return problems
+        return sch, finish
+    n = 0
+    for schedule, problems in S.explore(make_run, max_preemptions=max_preemptions, max_runs=max_runs):
+        n += 1
+        c.traces_validated += 1
+        c.note_case(key=('registration-race', str(schedule)), nontrivial=True)
+        if problems:
+            p_ = c.save_replay({'direction': 'C2S', 'kind': 'registration-race', 'schedule': _compress(schedule),
+                                'problems': problems})
+            c.violation('unregister racing with an event, schedule %s: %s' % (_compress(schedule), problems[:2]), p_)
+            break
+    sys.modules.pop(mod.__name__, None)
+    c.extra['registration_race_schedules'] = n
+
+
 def reconfig_race_leg(c, wd, max_preemptions, max_runs):
     """A configuration update (Dispatch!Reconfigure) lands while another thread is in the middle of an event: a
     tracepoint that is in the old AND in the new configuration acts on every hit of its line, whatever the interleaving
@@ -315,6 +373,7 @@ def run(c):
                   [[('a.f', [('cfg', 0), ('call', 'a.f', [('cfg', 255), ('line',), ('line',)]), ('line',)])]])]
     traces, meta = run_scenarios(c, rng, wd, 60 if quick else 1500, 0.2, 'placement', 'p', curated=same_name)
     reconfig_race_leg(c, wd, 2, 60 if quick else 3000)
+    registration_race_leg(c, wd, 1 if quick else 2, 400 if quick else 4000)
     validate(c, traces, meta, lambda m: m['firings'] >= 3, ideal=True)
     c.extra['events_judged'] = sum(m['events'] for m in meta)
     c.extra['firings'] = sum(m['firings'] for m in meta)
